@@ -34,6 +34,7 @@ type Clause struct {
 	Expr   ast.Expr // body expression after load
 	Func   *ast.FuncDecl
 	Assumed bool
+	Unbound bool // the clause no longer type-checks against the current code (a name it uses is gone)
 }
 
 type LoopSpec struct {
@@ -87,6 +88,7 @@ type Contract struct {
 	Line        int
 	File        string
 	Bounded     string
+	Unbound     bool // some clause of the contract is unbound: the unit is not verified (its obligations are reported as no longer generated)
 }
 
 type Pred struct {
@@ -115,6 +117,8 @@ type PkgSpec struct {
 	Abstract  []string          // named types viewed as records (e.g. bytecode.Type)
 	Options   map[string]bool
 	Hash      string
+	byGoName  map[string]*Clause
+	conOf     map[*Clause]*Contract
 }
 
 var clauseKW = map[string]bool{"requires": true, "ensures": true, "modifies": true, "loop": true, "allocates": true,
@@ -888,6 +892,12 @@ func (e *Engine) GenerateOverlay(ps *PkgSpec, pkg *types.Package, fnByKey map[st
 	emit := func(c *Clause, con *Contract, params []string, ret string) {
 		seq++
 		c.GoName = fmt.Sprintf("__c%d", seq)
+		if ps.byGoName == nil {
+			ps.byGoName = map[string]*Clause{}
+			ps.conOf = map[*Clause]*Contract{}
+		}
+		ps.byGoName[c.GoName] = c
+		ps.conOf[c] = con
 		func() {
 			defer func() {
 				if r := recover(); r != nil {
@@ -905,6 +915,10 @@ func (e *Engine) GenerateOverlay(ps *PkgSpec, pkg *types.Package, fnByKey map[st
 				return
 			}
 			c.Text = desugar(c.Raw)
+			if c.Unbound {
+				fmt.Fprintf(&body, "func %s(%s) %s { panic(\"unbound\") }\n", c.GoName, strings.Join(params, ", "), ret)
+				return
+			}
 			fmt.Fprintf(&body, "func %s(%s) %s { return %s }\n", c.GoName, strings.Join(params, ", "), ret, c.Text)
 		}()
 	}
